@@ -29,6 +29,87 @@ P = {
     "C05": ("TLA+ resolver (Resolve!Answer, written from RFC 1034/4592/6604/2308) judged by TLC on recorded query/response octets",
             "Random catalogs of nested zones; all names within two labels of the catalog's names x types; TLC decodes each response and compares RCODE, AA and the three sections with the specification's answer.",
             "3 C05"),
+    "C06": ("TLC: (M) tree-walk lookup = declarative RFC 1034/4592 lookup for all small zones; (V) recorded zone-store lookups validated against Zone!LookupDecl",
+            "Bounded model checking shows the walk of the node tree equals the declarative definition for every zone in scope; trace validation binds the real HashMapTreeZone to that definition on random zones x every nearby name x all option combinations.",
+            "3 C06"),
+    "C07": ("TLC trace validation against Server!Respond dispatch rules + Zone!CatLookup (longest suffix per class)",
+            "Catalogs with nested entries in four classes and all three entry states; QNAME x QCLASS x QTYPE x all 16 opcodes; NOTIMP/REFUSED/SERVFAIL, empty sections and AA clear are checked per record by the spec.",
+            "3 C07"),
+    "C08": ("TLC trace validation against the sequential pre-scan of Server!Respond (first problem in message order wins)",
+            "Mutated requests (every truncation, junk, count changes, misplaced/duplicated OPT/TSIG, flips); the spec prescribes FORMERR exactly where the property does and any other RCODE there is a rejection.",
+            "3 C08"),
+    "C09": ("TLC trace validation against Server!ScanAdd (OPT reached <=> OPT in response; version from raw TTL; owner)",
+            "OPT records in every section/position with all version/flag bytes, owners, option TLVs and sizes; response OPT fields and BADVERS/FORMERR checked per record.",
+            "3 C09"),
+    "C10": ("TLC trace validation with Tsig.tla; request and response MACs recomputed in TLC through a JDK HMAC operator override",
+            "Requests signed by the harness's own signer and broken variants; the spec applies the RFC 8945 checks in the server's order and recomputes both MACs independently of quandary's RustCrypto code.",
+            "3 C10"),
+    "C11": ("TLC trace validation: Tsig!Digest for request/response/subsequent modes + Tsig!Verdict vs the library's sign/verify results",
+            "Messages built with the real Writer in all TSIG modes; every MAC equals the spec digest under the JDK HMAC; verification verdicts on truncated MACs, shifted clocks and single-bit corruptions at random covered positions must equal the spec's.",
+            "3 C11"),
+    "C12": ("TLC trace validation of writer operation sequences against the Writer state machine + independent decode of the finished octets",
+            "Random op sequences over the public Writer API with the verif_state accessor; error kind and precedence, no-change-on-failure, truncation legality, and decode equality are spec conjuncts evaluated at every step.",
+            "3 C12"),
+    "C13": ("TLC trace validation: every compression pointer of every finished message checked by Wire-level pointer rules",
+            "Same traces as C12 with name pools chosen to maximise pointer creation, plus server responses.",
+            "3 C13"),
+    "C14": ("TLC trace validation of Names!DecodeName / Chunk / Unc against exhaustive small buffers and structured large ones",
+            "Exhaustive buffers over a 12-symbol alphabet at every start offset (length <= 3 quick, <= 4 thorough) plus random/structured buffers to 600 octets, four API functions each.",
+            "3 C14"),
+    "C15": ("TLC trace validation of reader call sequences against the Reader cursor machine + Wire decoder",
+            "Valid and mutated messages driven by random sequences of reader calls; results equal the independent decoder, failures leave the cursor unchanged, panics are rejected records.",
+            "3 C15"),
+    "C16": ("TLC trace validation of Names!Render/ParseText/NameEq/CmpName (RFC 4034 6.1) against recorded API results",
+            "Random names with arbitrary octets and boundary sizes, random text with escapes, pairs for equality/hash/order/subdomain.",
+            "3 C16"),
+    "C17": ("TLC trace validation of the relational Codes spec over all code values",
+            "Every value of the four 16-bit code spaces (strided in quick), all 8-bit values, all mnemonics in upper/lower/mixed case, TYPEnnn/CLASSnnn forms.",
+            "3 C17"),
+    "C18": ("TLC trace validation of Rdata!Valid / Rdata!Read against recorded validate/read results",
+            "22 class/type combinations, valid and near-valid RDATA, odd cursor/RDLENGTH pairs, compressed embedded names.",
+            "3 C18"),
+    "C19": ("TLC trace validation of Rdata!Equal / Rdata!Dedup (both argument orders logged)",
+            "Pairs and triples from shared name pools with case variants, junk and truncations; RdataSet insertion order.",
+            "3 C19"),
+    "C20": ("TLC trace validation of zone add/iterate histories against the abstract Zone store",
+            "Random add histories (in/out of zone, class/TTL mismatches, duplicates, case variants); every add result and the full iteration are predicted by the spec.",
+            "3 C20"),
+    "C21": ("TLC trace validation of Validate!Issues against recorded validate() results",
+            "Random zones with delegations, glue in/out of child zones, siblings, wildcards, CNAMEs, both glue policies, three classes; the issue set is recomputed by the spec.",
+            "3 C21"),
+    "C22": ("TLC (M) tree-with-pruning refines abstract map + (G) one replay per transition of the state graph + (V) random histories",
+            "The full state graph of MC_Catalog is dumped, every transition becomes a history replayed on the real catalog and validated by TraceCatalog; plus random histories in several classes.",
+            "3 C22"),
+    "C23": ("TLC trace validation of the zone-file context machine against the real parser on rendered files",
+            "Random record lists rendered with random presentation choices; TLC recomputes owner/TTL/class/line for every record from the abstract lines.",
+            "3 C23"),
+    "C24": ("TLC trace validation: Yielded(items) with Rdata!Valid on fuzzed inputs",
+            "Random octets, token soups and mutations of valid files; at most one error and it is last; every yielded record valid; panics/timeouts are rejected records.",
+            "3 C24"),
+    "C25": ("TLC trace validation of the include-stack semantics against the fs parser on random file trees",
+            "Random include trees with origins, sub-directories, depth limits, missing files.",
+            "3 C25"),
+    "C26": ("TLC (M) implemented bucket = abstract token bucket; (V) hook events and outcomes of time-shifted sessions validated by TraceRrl",
+            "Sessions with shifts from 0 to 10^9 s; every hook event (under the bucket lock) and visible outcome must be a step of the Rrl spec.",
+            "3 C26"),
+    "C27": ("TLC trace validation of Rrl!Key derivation and SubjectToRrl on recorded hook events",
+            "Sources in/out of prefixes, mapped addresses, QNAME case variants, wildcard hits, categories, TCP and non-QUERY requests.",
+            "3 C27"),
+    "C28": ("TLC trace validation of concurrent bursts: per-bucket event chain + sent = min(n, limit)",
+            "2-16 OS threads, bursts within one second, perturbing sink.",
+            "3 C28"),
+    "C29": ("TLC (M) exhaustive interleavings incl. timeouts/spurious wakeups with liveness; (V) hook traces of the unmodified thread.rs validated by TracePool",
+            "The model finds the stranded-task race in the as_found variant and proves safety+liveness of the repaired algorithm in scope; real schedules under a perturbing sink are validated event by event.",
+            "3 C29"),
+    "C30": ("TLC (M) framing loop refines abstract stream; (V) both providers on loopback validated by TraceIo",
+            "Random segmentation/pipelining/delays; per-request oracle is the direct handle_message result, itself validated by Server.tla.",
+            "3 C30"),
+    "C31": ("TLC (M) MC_Reload + (V) histories against the running quandaryd validated by TraceReload",
+            "Random config/zone-file edit histories with SIGHUP after every step, observed over UDP.",
+            "3 C31"),
+    "C32": ("TLC (M) MC_Snapshot + (V) generation-stamped catalogs/keys with forced swaps validated by TraceSnapshot (window technique)",
+            "Swaps forced between snapshot and use through the hook; every response must carry one generation from its window.",
+            "3 C32"),
 }
 
 COMMON_NOTE = ("Trusted base: " + TLC + ". Scope: the inputs generated in this run (evidence file has the counts); "
